@@ -837,7 +837,59 @@ def _candidate_of(node: ast.AST, own: bool, tag: str, other: str) -> bool:
     )
 
 
+
+# ---------------------------------------------------------------------------
+
+
+def table_fresh_cells(prog: Program) -> RuleResult:
+    res = RuleResult(
+        "TABLE-FRESH-CELLS",
+        "every slot of a list dimension and every missing key of a dict dimension of a table gets its own, "
+        "freshly generated sub-table (a recursive call evaluated per slot), never a copy of a shared template: "
+        "a shallow copy shares the inner containers, so writing one cell writes its siblings and a cell never "
+        "written no longer reads as infinitely bad with no tags",
+    )
+    mod = prog.module(DP)
+    fn = prog.func(DP, "_generate_table")
+    n = 0
+    for ret in walk_no_nested(fn):
+        if not (isinstance(ret, ast.Return) and ret.value is not None):
+            continue
+        val = ret.value
+        construct = None
+        elt = None
+        if isinstance(val, (ast.ListComp, ast.GeneratorExp)):
+            elt, construct = val.elt, f"{DP}:_generate_table/list-slots"
+        elif isinstance(val, ast.Call) and dotted(val.func) in ("list", "tuple") and val.args and isinstance(val.args[0], (ast.ListComp, ast.GeneratorExp)):
+            elt, construct = val.args[0].elt, f"{DP}:_generate_table/list-slots"
+        elif isinstance(val, ast.Call) and (dotted(val.func) or "").endswith("defaultdict") and val.args:
+            fac = val.args[0]
+            elt = fac.body if isinstance(fac, ast.Lambda) else fac
+            construct = f"{DP}:_generate_table/dict-default"
+        elif isinstance(val, ast.BinOp) and isinstance(val.op, ast.Mult) and isinstance(val.left, (ast.List,)):
+            res.fail(f"{DP}:_generate_table/list-slots", f"`{short(val)}` repeats one object in every slot", mod, ret)
+            n += 1
+            continue
+        if elt is None:
+            continue
+        n += 1
+        fresh = isinstance(elt, ast.Call) and dotted(elt.func) == "_generate_table"
+        if fresh:
+            res.ok(construct, f"per slot: {short(elt)}")
+        else:
+            res.fail(
+                construct,
+                f"each slot is `{short(elt)}`, not a fresh `_generate_table(...)`: the slots share the containers "
+                "of one template below the first level",
+                mod,
+                ret,
+            )
+    if n < 2:
+        raise AnalysisError(f"TABLE-FRESH-CELLS: only {n} dimension constructors recognised in _generate_table")
+    return res
+
 RULES = {
+    "TABLE-FRESH-CELLS": table_fresh_cells,
     "UPDATE-PAIRING": update_pairing,
     "RETENTION-GUARDS": retention_guards,
     "POLARITY": polarity,
